@@ -12,7 +12,7 @@ from ..model_ac import ModelAC
 ID = "C18"
 LEVEL = "exploration"
 SHARDS = {"quick": 8, "thorough": 16}
-RULE = ("up to 4 hosts; each good host sends 1..6 identical well-formed replies from ports {6445, 20086}; each bad host sends "
+RULE = ("(well-formed hosts may carry an address inside their reply that differs from the one they answer from: another host's, 0.0.0.0, a foreign one) up to 4 hosts; each good host sends 1..6 identical well-formed replies from ports {6445, 20086}; each bad host sends "
         "replies of one bad class (random bytes incl. ones starting 5A5A / 8370, valid envelope with the body cut at every length "
         "0..45, non-UTF-8 serial or name, name without separators / non-hex type / wrong name length, bad PKCS#7 under the fixed "
         "key, V3 wrapper too short, XML without body/device, without attributes, with non-numeric or unreachable port, empty "
@@ -161,6 +161,19 @@ def run(ctx) -> None:
                         "target": "directed" if m % 4 == 0 else None}
                 ctx.check(case, lambda c: _run_one(ctx, c))
     ctx.sweep("all interleavings of small reply multisets", m, True)
+    # two well-formed hosts, one of which carries the other's (or a foreign) address inside its reply: one device per
+    # responding address, at the address it answered from
+    e = 0
+    for emb in ("10.0.0.11", "10.0.0.10", "0.0.0.0", "192.168.77.7", "10.0.9.1"):
+        for order in ([0, 1], [1, 0], [0, 1, 0, 1], [0, 0, 1], [0, 2, 1], [2, 0, 1, 0]):
+            for which in (0, 1):
+                e += 1
+                if ctx.mine(e):
+                    hs = [dict(_good_host(0, 2), good=True, kind="good"), dict(_good_host(1, 3), good=True, kind="good"), _bad_host(0, "cut", [17])]
+                    hs[which]["reported_ip"] = emb
+                    case = {"hosts": hs, "order": order, "target": "directed" if e % 3 == 0 else None}
+                    ctx.check(case, lambda c: _run_one(ctx, c))
+    ctx.sweep("embedded address differs from the source address x arrival orders", e, True)
 
     def mk_case(spec):
         hosts = []
@@ -171,9 +184,15 @@ def run(ctx) -> None:
                 args = _args_for(kind, rnd_bytes)
                 hosts.append(_bad_host(i, kind, [args[(seed + j) % len(args)] for j in range(3)]))
         order = [x % len(hosts) for x in spec["order"]]
-        return {"hosts": hosts, "order": order, "auto_connect": spec["auto"], "spacing": spec["spacing"], "target": spec["target"]}
+        # the address a well-formed reply carries inside need not be the address it comes from (stale lease, second interface)
+        for i, (h, e) in enumerate(zip(hosts, spec.get("embed", []))):
+            if h["good"] and e:
+                h["reported_ip"] = {"next": hosts[(i + 1) % len(hosts)]["ip"], "prev": hosts[i - 1]["ip"], "zero": "0.0.0.0", "other": "192.168.77.7"}[e]
+        return {"hosts": hosts, "order": order, "auto_connect": spec["auto"] and not any(h.get("reported_ip") for h in hosts), "spacing": spec["spacing"], "target": spec["target"]}
 
     host = st.tuples(st.booleans(), st.sampled_from([2, 3]), st.sampled_from([0xAC, 0xAC, 0xA1, 0xFF]), st.sampled_from(discsim.BAD_KINDS), st.integers(0, 60))
+    embed = st.sampled_from([None, None, "next", "prev", "zero", "other"])
     cases = st.fixed_dictionaries({"hosts": st.lists(host, min_size=1, max_size=4), "order": st.lists(st.integers(0, 3), min_size=1, max_size=14),
-                                   "auto": st.booleans(), "spacing": st.sampled_from([0.0, 0.001, 0.2]), "target": st.sampled_from([None, None, "directed"])}).map(mk_case)
+                                   "auto": st.booleans(), "spacing": st.sampled_from([0.0, 0.001, 0.2]), "target": st.sampled_from([None, None, "directed"]),
+                                   "embed": st.lists(embed, min_size=4, max_size=4)}).map(mk_case)
     ctx.hyp("random", cases, lambda c: _run_one(ctx, c), ctx.n(4000, 200000))
